@@ -72,7 +72,7 @@ def lwwOut (r : LWW) : String :=
 def repLine (r : Nat) (x : Rep) (n : Nat) : String :=
   let live := sortNat (x.os.ents.map fun e => e.1 * 1000000000 + tagKey e.2)
   let dead := sortNat (x.os.tomb.map tagKey)
-  s!"r {r} pn {x.pn.value} P {vecOut x.pn.p n} N {vecOut x.pn.n n} | lww {lwwOut x.lww} | os {x.os.seq} E {showNats (elemsOf x.os)} T {showNats live} D {showNats dead}"
+  s!"r {r} pn {x.pn.value} P {vecOut x.pn.p n} N {vecOut x.pn.n n} | lww {lwwOut x.lww} | os E {showNats (elemsOf x.os)} T {showNats live} D {showNats dead}"
 
 def runCrdt (n : Nat) (body : List String) : List String :=
   let ops := body.filterMap (fun l => parseOp (toks l))
